@@ -234,6 +234,9 @@ pub struct Node {
     pub max_datagrams: usize,
     pub server_config_for_accept: Option<Arc<ServerConfig>>,
     pub ep_tx: u64,
+    /// per connection: (remote of the current unvalidated epoch, sent_to base, recv_from base): the ledger of the
+    /// amplification oracle restarts whenever the connection's path moves to another address
+    pub amp_epoch: HashMap<usize, (SocketAddr, u64, u64)>,
 }
 
 /// Schedule perturbations of the driver (C02/C20).
@@ -274,6 +277,9 @@ pub struct Sim {
     /// hook: inspect/modify every datagram entering the wire; return false to drop it
     pub wire_filter: Option<Box<dyn FnMut(&mut Dgram, &mut Rng) -> bool>>,
     /// record model-validation trace lines (request lines for the Lean driver + implementation's answers)
+    /// never advance virtual time beyond this instant (used for bounded settle phases)
+    pub time_cap: Option<u64>,
+    pub stop_requested: bool,
     pub model_trace: bool,
     pub model_ops: Vec<String>,
     pub model_impl: Vec<String>,
@@ -322,6 +328,7 @@ impl Sim {
             max_datagrams: 10,
             server_config_for_accept: None,
             ep_tx: 0,
+            amp_epoch: HashMap::new(),
         };
         Self {
             base: Instant::now(),
@@ -346,6 +353,8 @@ impl Sim {
             dropped: 0,
             faults: BTreeMap::new(),
             wire_filter: None,
+            time_cap: None,
+            stop_requested: false,
             model_trace: false,
             model_ops: Vec::new(),
             model_impl: Vec::new(),
@@ -620,7 +629,17 @@ impl Sim {
             let Some((ev, len, from)) = ev else { break };
             self.nodes[node].conns.get_mut(&ch).unwrap().obs.last_rx_at = Some(nowoff);
             let before = if self.model_trace { Some(self.nodes[node].conns[&ch].conn.verif_snapshot()) } else { None };
+            let remote_before = self.nodes[node].conns[&ch].conn.remote_address();
             self.nodes[node].conns.get_mut(&ch).unwrap().conn.handle_event(ev);
+            let remote_after = self.nodes[node].conns[&ch].conn.remote_address();
+            if remote_after != remote_before {
+                // new path: its budget starts with the datagram that revealed it
+                let n = &mut self.nodes[node];
+                let sent = *n.sent_to.get(&remote_after).unwrap_or(&0);
+                let recvd = *n.recv_from.get(&remote_after).unwrap_or(&0);
+                let credit = if from == remote_after { len as u64 } else { 0 };
+                n.amp_epoch.insert(ch, (remote_after, sent, recvd.saturating_sub(credit)));
+            }
             if let Some(b) = before {
                 let a = self.nodes[node].conns[&ch].conn.verif_snapshot();
                 // datagrams from other addresses that did not migrate the path are dropped/ignored by the path model
@@ -823,8 +842,12 @@ impl Sim {
         }
         // C07: anti-amplification towards an unvalidated address
         if self.check_amp && !before.path.validated && t.destination == before.path.remote {
-            let recvd = *self.nodes[node].recv_from.get(&t.destination).unwrap_or(&0);
-            let mut sent = *self.nodes[node].sent_to.get(&t.destination).unwrap_or(&0);
+            let (sb, rb) = match self.nodes[node].amp_epoch.get(&ch) {
+                Some((a, sb, rb)) if *a == t.destination => (*sb, *rb),
+                _ => (0, 0),
+            };
+            let recvd = self.nodes[node].recv_from.get(&t.destination).unwrap_or(&0) - rb;
+            let mut sent = self.nodes[node].sent_to.get(&t.destination).unwrap_or(&0) - sb;
             let mut off = 0;
             while off < t.size {
                 let len = seg.min(t.size - off);
@@ -865,6 +888,17 @@ impl Sim {
                 break;
             }
         }
+        if self.stop_requested {
+            // the caller's completion predicate became true: flush what the application queued, but do not
+            // advance virtual time
+            for node in 0..self.nodes.len() {
+                let chs: Vec<usize> = self.nodes[node].conns.iter().filter(|(_, c)| !c.removed).map(|(k, _)| *k).collect();
+                for ch in chs {
+                    self.drive_conn(node, ch);
+                }
+            }
+            return true;
+        }
         for node in 0..self.nodes.len() {
             let chs: Vec<usize> = self.nodes[node].conns.iter().filter(|(_, c)| !c.removed).map(|(k, _)| *k).collect();
             for ch in chs {
@@ -894,6 +928,12 @@ impl Sim {
         self.wire.retain(|d| d.at > self.now || self.nodes.iter().any(|n| n.addr == d.to));
         match next {
             Some(t) => {
+                if let Some(cap) = self.time_cap {
+                    if t > cap {
+                        self.now = self.now.max(cap);
+                        return false;
+                    }
+                }
                 self.now = self.now.max(t);
                 true
             }
@@ -919,9 +959,17 @@ impl Sim {
                 return RunEnd::Deadline;
             }
             let mut t2 = |s: &mut Sim| {
-                let _ = tick(s);
+                if tick(s) {
+                    s.stop_requested = true;
+                }
             };
-            if !self.step(&mut t2) {
+            self.stop_requested = false;
+            let more = self.step(&mut t2);
+            if self.stop_requested {
+                self.stop_requested = false;
+                return RunEnd::Done;
+            }
+            if !more {
                 if tick(self) {
                     return RunEnd::Done;
                 }
